@@ -30,7 +30,7 @@ RULE = (
 ASSUMPTIONS = ["the user posterior is deterministic; recorded values are compared at 1e-12 relative (L * (1/T) versus L / T)"]
 TIMEOUT = {"quick": 400, "thorough": 2400}
 REQUIRED = {"rows_rederived": 20000, "programs": 60, "cases:tempered": 20, "cases:bounded": 20, "twin_pairs": 15,
-            "mode_checks": 60, "tempering_runs": 8, "exchanged_points_checked": 10, "reloads": 10}
+            "mode_checks": 60, "tempering_runs": 8, "exchanged_points_checked": 10, "reloads": 10, "ensemble:failed_updates": 100}
 
 
 def jobs(tier, seed):
@@ -175,7 +175,7 @@ def random_program(rng, kind):
     return prog
 
 
-def build(kind, target, tkind, d, rng, T, bounded, seed, shared=None):
+def build(kind, target, tkind, d, rng, T, bounded, seed, shared=None, few_attempts=0):
     """Returns (sampler, dict of input arrays handed to the constructor)."""
     inputs = shared or {}
     if not inputs:
@@ -212,6 +212,8 @@ def build(kind, target, tkind, d, rng, T, bounded, seed, shared=None):
                               inverse_mass=inputs["inverse_mass"], epsilon=0.15, display_progress=False)
     else:
         ch = EnsembleSampler(posterior=target, starting_positions=inputs["positions"], bounds=b, display_progress=False)
+        if few_attempts:
+            ch.max_attempts = int(few_attempts)   # public setting (saved and restored): walkers then often exhaust their attempts and stay put
     return mc.seed_sampler(ch, seed), inputs
 
 
@@ -231,11 +233,14 @@ def run_job(job, rec):
         bounded = bool(rng.random() < 0.45)
         ctx = {"program": c, "kind": kind, "d": d, "target": tkind, "T": T, "bounded": bounded}
         rec.context = ctx
-        built = guarded(build, kind, target, tkind, d, rng, T, bounded, int(rng.integers(2**31)))
+        few = int(rng.choice([0, 1, 2, 3])) if kind == "ensemble" else 0
+        built = guarded(build, kind, target, tkind, d, rng, T, bounded, int(rng.integers(2**31)), few_attempts=few)
         if isinstance(built, Raised):
             rec.violation("raised", f"{kind} construction raised {built!r}", ctx)
             continue
         ch, b_inputs = built
+        ctx["max_attempts"] = few or "default"
+
         prog = random_program(rng, kind)
         rec.count("programs")
         if np.asarray(b_inputs["start"]).dtype.kind == "i":
@@ -250,6 +255,8 @@ def run_job(job, rec):
         if kind != "ensemble":
             check_rows(rec, ch, kind, target, T, [0], ctx, "starting point")
         run_program(rec, ch, kind, target, T, prog, rng, {**ctx, "program": prog})
+        if kind == "ensemble":
+            rec.count("ensemble:failed_updates", int(np.sum(getattr(ch, "failed_updates", [0]))))
 
     # ------------------------------------------------ samplers built from shared inputs evolve independently
     for c in range(job["n_twins"]):
@@ -308,6 +315,10 @@ def run_job(job, rec):
         d = int(rng.choice([1, 2]))
         tkind, target = make_target(rng, d)
         temps = [1.0] + sorted(float(v) for v in rng.uniform(1.3, 8.0, size=n_ch - 1))
+        if rng.random() < 0.45:
+            # a ladder handed over in another order is legitimate (the library only warns about it)
+            temps = [temps[i] for i in rng.permutation(n_ch)]
+            rec.count("cases:unsorted_ladder")
         kind = str(rng.choice(["gibbs", "pca", "hmc"]))
         ctx = {"tempering": c, "kind": kind, "d": d, "target": tkind, "temperatures": temps}
         rec.context = ctx
@@ -336,6 +347,10 @@ def run_job(job, rec):
             rec.count("exchanged_points_checked", int(np.asarray(pt.successful_swaps).sum()))
             rec.case(digest("pt", kind, temps, rounds), nontrivial=True)
             for ch, T in zip(out, temps):
+                # each returned chain is judged at its own temperature (the harness's value for the chain object that carries it)
+                own = 1.0 / float(ch.inv_temp)
+                if any(abs(own - t) <= 1e-12 * t for t in temps):
+                    T = min(temps, key=lambda t: abs(t - own))
                 got = check_rows(rec, ch, kind, target, T, range(int(ch.chain_length)), {**ctx, "chain_T": T}, "after exchanges")
                 if got is not None:
                     check_mode(rec, ch, kind, got[0], got[1], ctx)
